@@ -43,21 +43,15 @@ def analyse(ck):
     g_budget = v.rejects("Ge", lambda t: "verifies_in_window" in T.show(t) and (fp(t, "self.verifies_in_window") or (isinstance(t, tuple) and t[0] == "phi")), lambda t: fp(t, "self.limits.max_verifies_per_window"))
     c_verify = v.calls(lambda t: t.get("name") == "verify" and (t.get("impl_adt") or "").endswith("VerifierCircuitData"))
     g_bcap = v.rejects("Ge", lambda t: isinstance(t, tuple) and t[0] == "len" and fp(t[1], "self.buckets"), lambda t: fp(t, "self.limits.max_buckets"))
+    _ex = {}
+
     def exists_guard(g):
         """(collection, predicate term over ("elem", collection)) when the guard fails iff SOME element of a collection satisfies a
-        predicate: `if c.iter().any(|x| p(x)) { bail }`, or `for x in c { if p(x) { bail } }`"""
-        if g["fail_when"] is not True:
-            return None
-        c = g["cond"]
-        nm = P.call_name(c)
-        if nm and nm.endswith("::any") and len(c[4]) == 2 and isinstance(c[4][1], tuple) and c[4][1][0] == "closure":
-            coll = P.norm(c[4][0])
-            return coll, P.norm(v.fr.closure_ret(c[4][1], [("elem", coll)], site_hint=c[1]))
-        loops = [x[1] for x in v.fr.ctrl_of_block(g["bb"]) if x[0] == "loop" and tuple(x[2]) == ("1",)]
-        for coll in loops:
-            if any(s == ("elem", coll) for s in T.walk(c)):
-                return P.norm(coll), P.norm(c)
-        return None
+        predicate — every form e2.MethodView.exists_guards knows: `any(..)`, a loop with an inner guard, `find(..)` + `if let Some`,
+        `ensure!(all(|x| !p(x)))`"""
+        if not _ex:
+            _ex["t"] = {id(g_): (P.norm(coll_), P.norm(pred_)) for g_, coll_, pred_ in v.exists_guards()}
+        return _ex["t"].get(id(g))
 
     def in_index(pred, coll):
         """pred == self.nullifier_index.contains_key(<the element>)"""
@@ -263,6 +257,8 @@ def analyse(ck):
     writers = {f: set() for f in STATE_FIELDS}
     removers = set()
     for name in methods:
+        if (methods[name].d.get("vis") or "pub") != "pub" and name not in e2._known_fn_names():
+            continue   # a new private helper method: it is expanded into (and accounted to) the methods that call it
         mv = view(name)
         for f in STATE_FIELDS:
             es = [e for e in mv.mutator_effects(f)]
@@ -502,6 +498,19 @@ def analyse(ck):
                 prefix = ("proofs" in src and "min" in src and "batch_size" in src and "RangeTo" in src) or (
                     isinstance(s[1], tuple) and s[1][0] == "take" and T.show(s[1][1], maxdepth=8).endswith(".proofs") and fp(s[1][2], "self.batch_size"))
                 ret_ok = ret_ok or (prefix and P.norm(mv.fr.elem(s)) == ("fld", ("elem", s[1]), "proof"))
+    if not ret_ok:
+        # the same prefix collected by a push loop: `for q in proofs.iter().take(batch_size) { out.push(q.proof.clone()) }`
+        from . import circ as _circ
+        for m in _ok_members(rt) + [rt]:
+            for s in T.walk(m):
+                if (P.call_name(s) or "").endswith(("Vec::<T>::new", "Vec::<T>::with_capacity")):
+                    pv = _circ.per_iteration_value(mv.fr, mv.effects, s)
+                    if pv is not None:
+                        val_, it_ = P.norm(pv[0]), P.norm(pv[1])
+                        src = T.show(it_, maxdepth=8)
+                        prefix = ("proofs" in src and "min" in src and "batch_size" in src and "RangeTo" in src) or (
+                            isinstance(it_, tuple) and it_[0] == "take" and T.show(it_[1], maxdepth=8).endswith(".proofs") and fp(it_[2], "self.batch_size"))
+                        ret_ok = ret_ok or (prefix and val_ == ("fld", ("elem", it_), "proof"))
     ob.add({"C21"}, not muts and st_ok, "WMW", "snapshot_batch/effects", "snapshot_batch writes nothing but bucket.last_snapshot_at (no removal, no index change)", mv.loc0, [(e.name, e.loc) for e in muts] + [str(e.args[2])[:80] for e in stores])
     ob.add({"C21"}, ret_ok, "TERM", "snapshot_batch/returns-oldest-prefix", "returns clones of proofs[..min(len, batch_size)] through an order-preserving map (admission order, oldest first)", mv.loc0, rts[:400])
     # bucket_stats
